@@ -135,6 +135,17 @@ static int tm_count_dir(const char *path) {
 	return n - 0;
 }
 static int tm_fd_count(void) { int n = tm_count_dir("/proc/self/fd"); return n > 0 ? n - 1 : n; /* minus the dirfd itself */ }
+/* Minimum over a short settle period: a descriptor held briefly by a runtime thread vanishes, a leak persists. */
+static int tm_fd_count_settled(void) {
+	int best = tm_fd_count(), i;
+	for (i = 0; i < 25; i++) {
+		struct timespec ts = {0, 2000000}; int n;
+		nanosleep(&ts, NULL);
+		n = tm_fd_count();
+		if (n < best) { best = n; i = 0; }
+	}
+	return best;
+}
 static int tm_task_count_raw(void) { return tm_count_dir("/proc/self/task"); }
 /* A joined thread's /proc entry can linger for a moment: take the minimum seen over a short settle period. */
 static int tm_task_count(void) {
